@@ -9,6 +9,7 @@ use serde_json::{json, Value};
 
 mod afftree;
 mod arena;
+mod regions;
 mod tj;
 mod util;
 
@@ -33,6 +34,7 @@ fn run_script(sc: &Value, id: usize, out: Out) {
         "arena" => arena::run(sc, id, out),
         "iter" => arena::run_iter(sc, id, out),
         "afftree" => afftree::run(sc, id, out),
+        "regions" => regions::run(sc, id, out),
         _ => out(json!({"fam": fam, "sc": id, "ev": "unknown_family"})),
     }
 }
